@@ -4,5 +4,6 @@ cd "$(dirname "$0")/.."
 for d in seeded/*/; do
   id=$(basename $d); prop=${id%%-*}
   [ -n "$1" ] && [[ "$id" != *"$1"* ]] && continue
+  grep -q neutralised_by_fix $d/meta.json 2>/dev/null && { echo "$id: skipped (neutralised by a later fix, see meta.json)"; continue; }
   echo -n "$id: "; tools/mutation_check.sh $d/patch.diff $prop quick 2>&1 | grep -E "^(CAUGHT|SURVIVED|CHECK-BROKEN|PATCH-FAILED)" | tr '\n' ' '; echo
 done
